@@ -103,6 +103,112 @@ def _compile_spy(args):
     return idx, r
 
 
+BROKEN_POOL = []
+
+
+def one_scenario(ctx, res, rng, k):
+    """refusal logic of db create / db reindex around one broken page"""
+    from freezegun import freeze_time
+
+    cfg = Z.write_config(ctx.tmp / "cfg.yml")
+    zdir = ctx.tmp / "d"
+    broken_pool = BROKEN_POOL
+    if not broken_pool:
+        return None
+    if zdir.exists():
+        shutil.rmtree(zdir)
+    zdir.mkdir(parents=True)
+    files = G.gen_dir(rng, npages=(2, 3), sections=False)
+    G.write_dir(zdir, files)
+    bad = rng.choice(broken_pool)
+    (zdir / "zbroken.zo").write_text(bad)
+    case = {"files": files, "broken": bad}
+    Z.clear_engine_cache()
+    with freeze_time(dt.datetime(*TODAY, 12, 0)):
+        rc, _, err = Z.zorg_main(zdir, "db", "create", config=cfg)
+        res.evaluations += 1
+        if rc == 0:
+            res.failures.append(C.Failure("db create accepted a broken page that is not whitelisted", {**case, "kind": "not_refused"}))
+            return None
+        # -f whitelists it
+        Z.clear_engine_cache()
+        rc2, _, _ = Z.zorg_main(zdir, "db", "create", "-f", config=cfg)
+        wl = (zdir / ".zorg" / "error_file_whitelist.txt").read_text().split("\n")
+        if rc2 != 0 or "zbroken.zo" not in wl:
+            res.failures.append(C.Failure(f"db create -f failed (rc={rc2}) or did not whitelist the broken page: {wl}", {**case, "kind": "force"}))
+            return None
+        rows = G.dump_index(zdir)
+        if any(r["path"] == "zbroken.zo" for r in rows):
+            res.failures.append(C.Failure("notes of a broken page were indexed", {**case, "kind": "partial_index"}))
+        good = set(G.dump_pages(zdir)) - {"zbroken.zo"}
+        if good != {p for p in files}:
+            res.failures.append(C.Failure(f"with the broken page whitelisted the good pages are not all indexed: {sorted(good)} vs {sorted(files)}", {**case, "kind": "good_pages"}))
+        # whitelisted: a plain create is accepted now
+        Z.clear_engine_cache()
+        rc3, _, _ = Z.zorg_main(zdir, "db", "create", config=cfg)
+        if rc3 != 0:
+            res.failures.append(C.Failure("db create refuses a whitelisted broken page", {**case, "kind": "whitelist"}))
+        # reindex: break a good page -> refused
+        victim = sorted(files)[0]
+        (zdir / victim).write_text(bad)
+        Z.clear_engine_cache()
+        rc4, _, _ = Z.zorg_main(zdir, "db", "reindex", config=cfg)
+        res.evaluations += 1
+        if rc4 == 0:
+            res.failures.append(C.Failure("db reindex accepted a newly broken page", {**case, "kind": "reindex_not_refused", "victim": victim}))
+        res.count("refusal_scenarios")
+        # ---- two pages change before one reindex: an earlier one stays valid, a later one breaks ----
+        if zdir.exists():
+            shutil.rmtree(zdir)
+        zdir.mkdir(parents=True)
+        G.write_dir(zdir, files)
+        Z.clear_engine_cache()
+        rc, _, _ = Z.zorg_main(zdir, "db", "create", config=cfg)
+        names = sorted(files, key=lambda p: Path(p).name)
+        if rc != 0 or len(names) < 2:
+            return None
+        early, late = names[0], names[-1]
+        (zdir / early).write_text(files[early].rstrip("\n") + "\n\n- 240101#zz appended note\n")
+        (zdir / late).write_text(bad)
+        outcomes = []
+        for attempt in range(3):
+            Z.clear_engine_cache()
+            rcx, _, _ = Z.zorg_main(zdir, "db", "reindex", config=cfg)
+            outcomes.append(rcx)
+        res.evaluations += 1
+        res.count("reindex_two_pages_scenarios")
+        if any(o == 0 for o in outcomes):
+            stale = [r["zid"] for r in G.dump_index(zdir) if r["path"] == late]
+            res.failures.append(C.Failure(f"a broken, non-whitelisted page was accepted by a repeated `db reindex` (exit codes {outcomes}); stale notes of it in the index: {stale[:3]}",
+                                          {**case, "kind": "reindex_repeat_accepts", "early": early, "late": late}))
+        # ---- a whitelisted page is fixed, indexed, and breaks again: nobody whitelisted THAT breakage ----
+        if zdir.exists():
+            shutil.rmtree(zdir)
+        zdir.mkdir(parents=True)
+        G.write_dir(zdir, files)
+        (zdir / "zbroken.zo").write_text(bad)
+        Z.clear_engine_cache()
+        rc, _, _ = Z.zorg_main(zdir, "db", "create", "-f", config=cfg)
+        if rc != 0:
+            return None
+        (zdir / "zbroken.zo").write_text("# Fixed page\n\n- 240101#zy a note of the fixed page\n")
+        Z.clear_engine_cache()
+        rc_fix, _, _ = Z.zorg_main(zdir, "db", "reindex", config=cfg)
+        fixed_indexed = any(r["path"] == "zbroken.zo" for r in G.dump_index(zdir))
+        (zdir / "zbroken.zo").write_text(bad)
+        Z.clear_engine_cache()
+        rc_again, _, _ = Z.zorg_main(zdir, "db", "reindex", config=cfg)
+        res.evaluations += 1
+        res.count("fixed_then_broken_scenarios")
+        if rc_fix != 0 or not fixed_indexed:
+            res.failures.append(C.Failure(f"a whitelisted page that was fixed is not indexed by the next reindex (rc={rc_fix})", {**case, "kind": "fixed_not_indexed"}))
+        elif rc_again == 0:
+            left = [r["zid"] for r in G.dump_index(zdir) if r["path"] == "zbroken.zo"]
+            res.failures.append(C.Failure("a page that was whitelisted, then fixed and indexed, then broken again is accepted silently by `db reindex` "
+                                          f"(its notes now in the index: {left}): the breakage was never whitelisted", {**case, "kind": "rebroken_accepted"}))
+    return None
+
+
 def body(ctx: C.Ctx, proof: C.ProofStatus) -> C.Result:
     import multiprocessing as mp
     from freezegun import freeze_time
@@ -148,103 +254,11 @@ def body(ctx: C.Ctx, proof: C.ProofStatus) -> C.Result:
         if len(res.samples) < 3 and kind == "damaged" and r["errors"]:
             res.sample({"text": text[:300], "errors": r["errors"], "has_errors": r["has_errors"]})
     # ---- refusal logic of db create / db reindex ----------------------------------------------
-    cfg = Z.write_config(ctx.tmp / "cfg.yml")
-    zdir = ctx.tmp / "d"
-    broken_pool = [t for (t, k), (_, r) in zip(texts, outs) if "exc" not in r and r["errors"] and r["has_errors"]][:400]
-    for k in range(ctx.scale(16, 200)):
-        if not broken_pool:
-            break
-        if zdir.exists():
-            shutil.rmtree(zdir)
-        zdir.mkdir(parents=True)
-        files = G.gen_dir(rng, npages=(2, 3), sections=False)
-        G.write_dir(zdir, files)
-        bad = rng.choice(broken_pool)
-        (zdir / "zbroken.zo").write_text(bad)
-        case = {"files": files, "broken": bad}
-        Z.clear_engine_cache()
-        with freeze_time(dt.datetime(*TODAY, 12, 0)):
-            rc, _, err = Z.zorg_main(zdir, "db", "create", config=cfg)
-            res.evaluations += 1
-            if rc == 0:
-                res.failures.append(C.Failure("db create accepted a broken page that is not whitelisted", {**case, "kind": "not_refused"}))
-                continue
-            # -f whitelists it
-            Z.clear_engine_cache()
-            rc2, _, _ = Z.zorg_main(zdir, "db", "create", "-f", config=cfg)
-            wl = (zdir / ".zorg" / "error_file_whitelist.txt").read_text().split("\n")
-            if rc2 != 0 or "zbroken.zo" not in wl:
-                res.failures.append(C.Failure(f"db create -f failed (rc={rc2}) or did not whitelist the broken page: {wl}", {**case, "kind": "force"}))
-                continue
-            rows = G.dump_index(zdir)
-            if any(r["path"] == "zbroken.zo" for r in rows):
-                res.failures.append(C.Failure("notes of a broken page were indexed", {**case, "kind": "partial_index"}))
-            good = set(G.dump_pages(zdir)) - {"zbroken.zo"}
-            if good != {p for p in files}:
-                res.failures.append(C.Failure(f"with the broken page whitelisted the good pages are not all indexed: {sorted(good)} vs {sorted(files)}", {**case, "kind": "good_pages"}))
-            # whitelisted: a plain create is accepted now
-            Z.clear_engine_cache()
-            rc3, _, _ = Z.zorg_main(zdir, "db", "create", config=cfg)
-            if rc3 != 0:
-                res.failures.append(C.Failure("db create refuses a whitelisted broken page", {**case, "kind": "whitelist"}))
-            # reindex: break a good page -> refused
-            victim = sorted(files)[0]
-            (zdir / victim).write_text(bad)
-            Z.clear_engine_cache()
-            rc4, _, _ = Z.zorg_main(zdir, "db", "reindex", config=cfg)
-            res.evaluations += 1
-            if rc4 == 0:
-                res.failures.append(C.Failure("db reindex accepted a newly broken page", {**case, "kind": "reindex_not_refused", "victim": victim}))
-            res.count("refusal_scenarios")
-            # ---- two pages change before one reindex: an earlier one stays valid, a later one breaks ----
-            if zdir.exists():
-                shutil.rmtree(zdir)
-            zdir.mkdir(parents=True)
-            G.write_dir(zdir, files)
-            Z.clear_engine_cache()
-            rc, _, _ = Z.zorg_main(zdir, "db", "create", config=cfg)
-            names = sorted(files, key=lambda p: Path(p).name)
-            if rc != 0 or len(names) < 2:
-                continue
-            early, late = names[0], names[-1]
-            (zdir / early).write_text(files[early].rstrip("\n") + "\n\n- 240101#zz appended note\n")
-            (zdir / late).write_text(bad)
-            outcomes = []
-            for attempt in range(3):
-                Z.clear_engine_cache()
-                rcx, _, _ = Z.zorg_main(zdir, "db", "reindex", config=cfg)
-                outcomes.append(rcx)
-            res.evaluations += 1
-            res.count("reindex_two_pages_scenarios")
-            if any(o == 0 for o in outcomes):
-                stale = [r["zid"] for r in G.dump_index(zdir) if r["path"] == late]
-                res.failures.append(C.Failure(f"a broken, non-whitelisted page was accepted by a repeated `db reindex` (exit codes {outcomes}); stale notes of it in the index: {stale[:3]}",
-                                              {**case, "kind": "reindex_repeat_accepts", "early": early, "late": late}))
-            # ---- a whitelisted page is fixed, indexed, and breaks again: nobody whitelisted THAT breakage ----
-            if zdir.exists():
-                shutil.rmtree(zdir)
-            zdir.mkdir(parents=True)
-            G.write_dir(zdir, files)
-            (zdir / "zbroken.zo").write_text(bad)
-            Z.clear_engine_cache()
-            rc, _, _ = Z.zorg_main(zdir, "db", "create", "-f", config=cfg)
-            if rc != 0:
-                continue
-            (zdir / "zbroken.zo").write_text("# Fixed page\n\n- 240101#zy a note of the fixed page\n")
-            Z.clear_engine_cache()
-            rc_fix, _, _ = Z.zorg_main(zdir, "db", "reindex", config=cfg)
-            fixed_indexed = any(r["path"] == "zbroken.zo" for r in G.dump_index(zdir))
-            (zdir / "zbroken.zo").write_text(bad)
-            Z.clear_engine_cache()
-            rc_again, _, _ = Z.zorg_main(zdir, "db", "reindex", config=cfg)
-            res.evaluations += 1
-            res.count("fixed_then_broken_scenarios")
-            if rc_fix != 0 or not fixed_indexed:
-                res.failures.append(C.Failure(f"a whitelisted page that was fixed is not indexed by the next reindex (rc={rc_fix})", {**case, "kind": "fixed_not_indexed"}))
-            elif rc_again == 0:
-                left = [r["zid"] for r in G.dump_index(zdir) if r["path"] == "zbroken.zo"]
-                res.failures.append(C.Failure("a page that was whitelisted, then fixed and indexed, then broken again is accepted silently by `db reindex` "
-                                              f"(its notes now in the index: {left}): the breakage was never whitelisted", {**case, "kind": "rebroken_accepted"}))
+    global BROKEN_POOL
+    BROKEN_POOL = [t for (t, k), (_, r) in zip(texts, outs) if "exc" not in r and r["errors"] and r["has_errors"]][:400]
+    if BROKEN_POOL:
+        sres, _ = C.parallel_jobs(ctx, ctx.scale(28, 200), one_scenario)
+        res.merge(sres)
     return res
 
 
